@@ -440,7 +440,7 @@ func derivesFromLoopElement(v ssa.Value, l *ir.Loop) bool {
 		case *ssa.UnOp:
 			return walk(x.X)
 		case *ssa.IndexAddr:
-			if subj != nil && ir.SeeThrough(x.X) == subj {
+			if subj != nil && sameExpr(x.X, subj) {
 				if _, isPhi := x.Index.(*ssa.Phi); isPhi && l.Blocks[x.Index.(*ssa.Phi).Block()] {
 					return true
 				}
@@ -611,8 +611,24 @@ func serverClose(c *Ctx) {
 			bad = append(bad, "teardown is not called in a loop over the tracked services")
 		} else {
 			subj := rangeSubject(l)
-			if subj == nil || ir.PathOf(subj).Class() != "service.Server.svcs" {
-				bad = append(bad, "the loop does not range over Server.svcs")
+			okSubj := subj != nil && ir.PathOf(subj).Class() == "service.Server.svcs"
+			if mk, isMk := subj.(*ssa.MakeSlice); isMk && !okSubj {
+				// a snapshot: make([]*service, len(svr.svcs)); copy(snapshot, svr.svcs)
+				for _, call := range ir.Calls(fn) {
+					if bi, isB := call.Common().Value.(*ssa.Builtin); isB && bi.Name() == "copy" {
+						a := call.Common().Args
+						if a[0] == ssa.Value(mk) && ir.PathOf(a[1]).Class() == "service.Server.svcs" {
+							if lc, isC := mk.Len.(*ssa.Call); isC {
+								if b2, isB2 := lc.Common().Value.(*ssa.Builtin); isB2 && b2.Name() == "len" && ir.PathOf(lc.Common().Args[0]).Class() == "service.Server.svcs" {
+									okSubj = true
+								}
+							}
+						}
+					}
+				}
+			}
+			if !okSubj {
+				bad = append(bad, "the loop does not range over Server.svcs (or a full snapshot of it)")
 			}
 			for _, e := range l.ExitEdges() {
 				if e[0] != l.Header {
